@@ -8,7 +8,7 @@ whitelist of builtins are interpreted.  Anything else raises ``Unknown``.
 """
 import ast
 
-from .srcmodel import Unknown, FuncRef, Regex, func_params
+from .srcmodel import Unknown, FuncRef, Regex, func_params, unparse
 
 
 class _Break(Exception):
@@ -214,6 +214,13 @@ class _Interp(object):
 
     def call(self, n):
         f = n.func
+        if isinstance(f, ast.Name) and f.id == "isinstance" and f.id not in self.env and len(n.args) == 2:
+            # only against the handful of types the helpers use (the type expression is not evaluated)
+            tname = unparse(n.args[1])
+            table = {"str": str, "string_type": str, "dict": dict, "list": list, "tuple": tuple, "bytes": bytes, "Iterable": (list, tuple, set, frozenset, dict, str)}
+            if tname in table:
+                return isinstance(self.expr(n.args[0]), table[tname])
+            raise Unknown("isinstance against %s" % tname)
         args = [self.expr(a) for a in n.args]
         kwargs = {kw.arg: self.expr(kw.value) for kw in n.keywords}
         if isinstance(f, ast.Attribute):
@@ -229,7 +236,8 @@ class _Interp(object):
                     except Exception as e:
                         raise Unknown("method raised %s" % e)
                 if isinstance(base, (dict,)) and f.attr in ("get", "items", "keys", "values"):
-                    return getattr(base, f.attr)(*args)
+                    r = getattr(base, f.attr)(*args)
+                    return list(r) if f.attr != "get" else r
                 if isinstance(base, list) and f.attr in ("append", "pop", "extend", "index", "count"):
                     try:
                         return getattr(base, f.attr)(*args)
@@ -257,11 +265,18 @@ class _Interp(object):
                 raise Unknown("call of local value")
             if f.id == "reversed":
                 return list(reversed(list(args[0])))
-            if f.id in ("len", "str", "int", "bool", "all", "any", "tuple", "list", "sorted", "min", "max", "callable", "isinstance"):
+            if f.id == "iter":
+                return list(args[0])
+            if f.id == "isinstance":
+                # only against the handful of types the helpers use
+                tname = unparse(n.args[1]) if len(n.args) > 1 else ""
+                table = {"str": str, "string_type": str, "dict": dict, "list": list, "tuple": tuple, "bytes": bytes, "Iterable": (list, tuple, set, frozenset, dict, str)}
+                if tname in table:
+                    return isinstance(args[0], table[tname])
+                raise Unknown("isinstance against %s" % tname)
+            if f.id in ("len", "str", "int", "bool", "all", "any", "tuple", "list", "sorted", "min", "max", "callable"):
                 if f.id == "callable":
                     return isinstance(args[0], FuncRef)
-                if f.id == "isinstance":
-                    raise Unknown("isinstance")
                 import builtins
                 try:
                     return getattr(builtins, f.id)(*args, **kwargs)
@@ -273,6 +288,13 @@ class _Interp(object):
             if ref is not None and ref.qualname in ("os.path.splitext", "posixpath.splitext"):
                 import posixpath
                 return posixpath.splitext(*args)
+            if ref is not None and ref.qualname in ("urllib.parse.quote", "urllib.parse.unquote"):
+                # standard-library functions folded on constants
+                import urllib.parse
+                try:
+                    return getattr(urllib.parse, ref.qualname.rpartition(".")[2])(*args, **kwargs)
+                except Exception as e:
+                    raise Unknown("stdlib call raised %s" % e)
             raise Unknown("call to %s" % f.id)
         raise Unknown("call shape")
 
